@@ -30,6 +30,13 @@ func VerifC16Offset() {
 		r = AddOffset64(a, d)
 	}
 	vBUnchanged(a, snap, "argument-modified")
+	if vsym.Param("inv") == 1 {
+		// C09 mode: the result satisfies the full invariant and validates
+		vBitmapWf(r, true)
+		vsym.Assert(r.Validate() == nil, "validate")
+		vsym.Reach("end")
+		return
+	}
 	vBitmapWf(r, false)
 	y := vArg32()
 	v := int64(y) - d
@@ -56,6 +63,13 @@ func VerifC16Flip() {
 	s, e := vRangeArgs()
 	r := Flip(a, s, e)
 	vBUnchanged(a, snap, "argument-modified")
+	if vsym.Param("inv") == 1 {
+		// C09 mode: the result satisfies the full invariant and validates
+		vBitmapWf(r, true)
+		vsym.Assert(r.Validate() == nil, "validate")
+		vsym.Reach("end")
+		return
+	}
 	kmin := vsym.Param("sb") >> 16
 	kmax := (vsym.Param("sb") + vsym.Param("sm") + vsym.Param("len")) >> 16
 	if vsym.Param("len") < 0 {
